@@ -432,6 +432,46 @@ func TestC15(t *testing.T) {
 			}
 		}
 	}
+	// (3b) history: an 8-colour entry is used, then the library fabricates its
+	// 256-colour variant from it (LookupTerminfo of name-256color amends the
+	// -color entry in place); the colour strings must follow the entry as it
+	// is now, not as it was when they were first asked for
+	for ei, name := range hx.TermNames() {
+		if (ei%wn != wi && cf == nil) || hx.PristineColors(name) != 8 {
+			continue
+		}
+		if cf != nil && cf.Case["term"] != name {
+			continue
+		}
+		ent, base := hx.ScratchColorEntry(name)
+		if ent == nil || (ent.SetFg == "" && ent.SetBg == "") {
+			continue
+		}
+		pairs := [][2]int{{9, 12}, {1, 2}, {15, 0}, {-1, 9}, {12, -1}, {7, 8}, {200, 100}}
+		for _, pr := range pairs {
+			_ = ent.TColor(pr[0], pr[1]) // as an 8-colour terminal
+		}
+		got, err := terminfo.LookupTerminfo(base + "-256color")
+		if err != nil || got != ent || ent.Colors != 256 {
+			continue // the library did not fabricate from this object: nothing to check
+		}
+		for _, pr := range pairs {
+			s := ent.TColor(pr[0], pr[1])
+			term := vt.New(2, 1, nil)
+			term.Write([]byte(s))
+			exp := func(i int) vt.Color {
+				if i < 0 || i >= 256 {
+					return vt.Color{}
+				}
+				return vt.Color{Kind: vt.ColPalette, V: i}
+			}
+			if len(term.Errors) > 0 || term.Pen.Fg != exp(pr[0]) || term.Pen.Bg != exp(pr[1]) {
+				f := &hx.Failure{Tag: "C15/color", Msg: fmt.Sprintf("%s, after the library fabricated its 256-colour variant from the entry: TColor(%d,%d) = %q selects fg %v bg %v, expected fg %v bg %v (errors %v)", name, pr[0], pr[1], s, term.Pen.Fg, term.Pen.Bg, exp(pr[0]), exp(pr[1]), term.Errors)}
+				report(t, f, map[string]interface{}{"kind": "color256", "term": name})
+			}
+			hx.St.Enumerated["C15 TColor pairs"]++
+		}
+	}
 	if cf != nil {
 		return
 	}
